@@ -161,6 +161,9 @@ class Fn:
         if isinstance(e, ast.Call):
             d = dotted(e.func)
             args = list(e.args) + [k.value for k in e.keywords]
+            nocopy = any(k.arg == 'copy' and isinstance(k.value, ast.Constant) and k.value.value is False for k in e.keywords)
+            if nocopy and d in ('np.nan_to_num', 'np.array', 'np.asarray', 'np.asanyarray') and e.args:
+                return self.org(e.args[0], env)       # copy=False: the result IS (or may be) the argument
             if d in FRESH_CALLS or d in self.fresh_funcs:
                 out = {FRESH}
                 if d in SHALLOW_CALLS:
@@ -185,6 +188,8 @@ class Fn:
                 return out or {FRESH}
             if isinstance(e.func, ast.Attribute) and not (d and d.split('.')[0] in self.imports and d.split('.')[0] not in env):
                 m = e.func.attr
+                if m == 'astype' and any(k.arg == 'copy' and isinstance(k.value, ast.Constant) and k.value.value is False for k in e.keywords):
+                    return self.org(e.func.value, env)   # astype(..., copy=False) may return the receiver itself
                 if m in FRESH_METHODS:
                     if m in ('copy', 'values', 'items', 'get', 'tolist'):
                         ro = self.org(e.func.value, env)
@@ -272,6 +277,10 @@ class Fn:
                     if k.arg == 'out' and not (isinstance(k.value, ast.Constant) and k.value.value is None):
                         self.site('out-argument', k.value, env, n)
                 d = dotted(n.func)
+                if d == 'np.nan_to_num' and n.args and (any(k.arg == 'copy' and isinstance(k.value, ast.Constant) and k.value.value is False
+                                                            for k in n.keywords) or (len(n.args) >= 2 and isinstance(n.args[1], ast.Constant)
+                                                                                     and n.args[1].value is False)):
+                    self.site('call-np.nan_to_num-copy-False', n.args[0], env, n)    # replaces nan / inf IN PLACE
                 if d in ('np.copyto', 'np.put', 'np.place', 'np.putmask', 'np.fill_diagonal', 'random.shuffle', 'np.random.shuffle') and n.args:
                     self.site('call-' + d, n.args[0], env, n)
                 if d in ('np.logical_or', 'np.logical_and', 'np.add', 'np.subtract', 'np.multiply', 'np.divide', 'np.maximum', 'np.minimum') and len(n.args) >= 3:
